@@ -169,6 +169,27 @@ class C06(Check):
         assert blob_ref(hdr2, [tx_hash_ref(mtx2)]) == BLOCK_V2_BLOB     # the published PoW blob of that block
         miner_txs.append(mtx2)
         add("blockparts %s %s %s -" % (hx(hdr2), hx(mtx2), hx(tx_hash_ref(mtx2))), "corpus-block")
+        # --- other transactions in the miner slot: Block::tx_root must use Transaction::hash whatever the miner transaction looks
+        # like (non-Null RingCT types, key inputs, no outputs, later versions).  Their hash is the Coq SPEC of the identifier
+        # (Spec/TxIdSpec.v through `txid_spec`; C05 checks that spec against an independent python definition).
+        import gen_codec as G
+        self.mhash = {}
+        sz = self.impl_query(["sizes"])[0].split(" ")[1]
+        mshapes = [dict(version=2, in_kinds=["gen"], ring=1, out_tagged=[False], rct_type=t, n_proofs=1, lr=(0, 0)) for t in (2, 4, 5, 6)]
+        mshapes += [dict(version=2, in_kinds=["key"], ring=2, out_tagged=[True, False], rct_type=5, n_proofs=1, lr=(1, 1)),
+                    dict(version=2, in_kinds=["gen"], ring=1, out_tagged=[], rct_type=0),
+                    dict(version=2, in_kinds=["gen", "gen"], ring=1, out_tagged=[True], rct_type=0),
+                    dict(version=3, in_kinds=["gen"], ring=1, out_tagged=[False], rct_type=0),
+                    dict(version=1, in_kinds=["key", "key"], ring=2, out_tagged=[False], rct_type=0)]
+        enc = self.ctx.model_many(["enc %s tx %s" % (sz, " ".join(G.tx_desc(rng, **sh))) for sh in mshapes])
+        other = [bytes.fromhex(r.split(" ")[1]) for r in enc if r.startswith("OK ")]
+        if len(other) != len(mshapes):
+            raise framework.Infra("model cannot encode a miner-slot transaction")
+        ids = self.ctx.model_many(["txid_spec %s %s" % (sz, hx(m)) for m in other])
+        for m, r in zip(other, ids):
+            if not r.startswith("OK "):
+                raise framework.Infra("no specification id for a generated transaction: " + r[:40])
+            self.mhash[m] = bytes.fromhex(r.split(" ")[1])
         b = block_202612()
         if b is not None:
             parts = split_block(b)
@@ -200,6 +221,14 @@ class C06(Check):
         counts = set(range(0, 71))
         for k in range(1, (11 if thorough else 9) + 1):
             counts.update([2**k - 2, 2**k - 1, 2**k, 2**k + 1])
+        for n in (0, 1, 2, 3, 5, 8):
+            for mtx in other:
+                hdr = self.header(rng)
+                lv = self.leaves(rng, n)
+                add("blockparts %s %s %s %s" % (hx(hdr), hx(mtx), hx(self.mh(mtx)), hx(b"".join(lv)) if lv else "-"), "block-other-miner-slot")
+                full = hdr + mtx + varint(n) + b"".join(lv)
+                self.full[hx(full)] = (hdr, mtx, lv)
+                add("blockfull " + hx(full), "block-other-miner-slot-from-bytes")
         for n in sorted(counts):
             for mtx in miner_txs:
                 for _ in range(2 if n <= 16 else 1):
@@ -213,6 +242,10 @@ class C06(Check):
                         self.full[hx(full)] = (hdr, mtx, lv)
                         add("blockfull " + hx(full), "block-from-bytes")
         return cs
+
+    def mh(self, mtx):
+        """hash of the transaction in the miner slot: python for coinbases, the Coq spec for generated ones"""
+        return self.mhash[bytes(mtx)] if bytes(mtx) in getattr(self, "mhash", {}) else tx_hash_ref(mtx)
 
     @staticmethod
     def parse_leaves(arg):
@@ -249,7 +282,7 @@ class C06(Check):
             return None
         if w[0] == "blockfull":
             hdr, mtx, txs = self.full[w[1]]
-            leaves = [tx_hash_ref(mtx)] + txs
+            leaves = [self.mh(mtx)] + txs
             want = "OK %s %s %s" % (tree_ref(leaves).hex(), blob_ref(hdr, leaves).hex(), id_ref(hdr, leaves).hex())
             if impl != want:
                 return "block of %d tx hashes parsed from bytes: root/blob/id %s, python reference %s" % (len(txs), impl[:200], want[:200])
@@ -258,7 +291,7 @@ class C06(Check):
             hdr = bytes.fromhex(w[1])
             mtx = bytes.fromhex(w[2])
             txs = self.parse_leaves(w[4])
-            mh = tx_hash_ref(mtx)
+            mh = self.mh(mtx)
             spec = ctx.model("block_spec %s %s" % (w[1], w[3] + ("" if w[4] == "-" else w[4]))).split(" ")
             if r[0] != "OK" or len(r) != 5:
                 return "block functions on a valid block with %d transactions returned %s" % (len(txs), impl[:100])
